@@ -731,8 +731,10 @@ impl<'a> Gen<'a> {
                 c += k;
                 continue;
             }
-            if self.cfg.hazards > 0 && self.r.chance(self.cfg.hazards / 6, 1000) {
-                // zero-width bits(): fills no column
+            if (self.cfg.hazards > 0 && self.r.chance(self.cfg.hazards / 6, 1000))
+                || (self.cfg.allow_random > 0 && self.r.chance(self.cfg.allow_random / 15, 1000))
+            {
+                // zero-width bits(): fills no column (its argument is evaluated all the same)
                 let e = self.expr(1, true);
                 out.push(Entry::Bits(0, e));
             }
